@@ -24,7 +24,7 @@ use wtransport::tls::rustls::client::danger::ServerCertVerifier;
 use wtransport::tls::{Certificate, CertificateChain, PrivateKey, Sha256Digest};
 use wtransport::{ClientConfig, Endpoint, Identity, ServerConfig};
 
-const RULE: &str = "verifier half: case = (not_before nb in unix seconds, validity d = not_after - nb in seconds, key algorithm P-256 / P-384 / Ed25519, injected verification time `now`, pinned hash set, plus inputs that must not matter: server name, intermediates, OCSP bytes); the certificate is generated with rcgen for exactly (nb, nb + d, key) and h = SHA-256(DER) is computed by the harness. Boundary table (exhaustive): nb in {2001, window crossing 2038-01-19, window crossing the UTCTime/GeneralizedTime switch 2050-01-01, 2026} x d in {14d-1s, 14d, 14d+1s, 1s, 13d, 15d, 365d} x key in {P-256, P-384, Ed25519} x now in {nb-1, nb, nb+1, mid, na-1, na, na+1} x set in {empty, {h}, {h with one bit flipped}, {h + 20 others}, {20 others}}. Random cases: nb anywhere in 1970..2190, d from boundary values / 1 s..30 days / +-100 s around 14 days / 1..4 s / up to 400 days, now at +-3 s of either end, inside the window or far outside, all set shapes (any flipped bit, 0..40 others), all server-name / intermediates / OCSP shapes. Separate exhaustive tables cover a pre-2050 not_before encoded as GeneralizedTime, and degenerate windows (not_after == not_before, i.e. a one-second window since RFC 5280 bounds are inclusive, and not_after < not_before). Oracle: Ok <=> h in set AND nb <= now <= na AND na - nb <= 14 days AND key is ECDSA P-256. End-to-end half (exhaustive matrix, real handshakes on 127.0.0.1): client policy in {certificate hashes, native roots, no validation, custom TLS carrying the hash verifier, custom TLS with a harness CA as only root} x server identity in {pinned valid self-signed, valid but other hash pinned, 15 days, P-384, expired, not yet valid, Ed25519, harness-CA-signed 10-day P-256 leaf} x runtime flavour; oracle: connect succeeds <=> the policy admits the identity, native roots never admit, and after a refusal the server application never obtains a SessionRequest/session. Non-trivial: exactly one of the four conjuncts false, or all true (verifier); every matrix cell (e2e); distinct = distinct case";
+const RULE: &str = "verifier half: case = (not_before nb in unix seconds, validity d = not_after - nb in seconds, key algorithm P-256 / P-384 / Ed25519, injected verification time `now`, pinned hash set, plus inputs that must not matter: server name, intermediates (none, the leaf again, garbage, another admissible certificate that is itself pinned), OCSP bytes); the certificate is generated with rcgen for exactly (nb, nb + d, key) and h = SHA-256(DER) is computed by the harness. Boundary table (exhaustive): nb in {2001, window crossing 2038-01-19, window crossing the UTCTime/GeneralizedTime switch 2050-01-01, 2026} x d in {14d-1s, 14d, 14d+1s, 1s, 13d, 15d, 365d} x key in {P-256, P-384, Ed25519} x now in {nb-1, nb, nb+1, mid, na-1, na, na+1} x set in {empty, {h}, {h with one bit flipped}, {h + 20 others}, {20 others}}. Random cases: nb anywhere in 1970..2190, d from boundary values / 1 s..30 days / +-100 s around 14 days / 1..4 s / up to 400 days, now at +-3 s of either end, inside the window or far outside, all set shapes (any flipped bit, 0..40 others), all server-name / intermediates / OCSP shapes. Separate exhaustive tables cover a pre-2050 not_before encoded as GeneralizedTime, and degenerate windows (not_after == not_before, i.e. a one-second window since RFC 5280 bounds are inclusive, and not_after < not_before). Oracle: Ok <=> h in set AND nb <= now <= na AND na - nb <= 14 days AND key is ECDSA P-256. End-to-end half (exhaustive matrix, real handshakes on 127.0.0.1): client policy in {certificate hashes, native roots, no validation, custom TLS carrying the hash verifier, custom TLS with a harness CA as only root} x server identity in {pinned valid self-signed, valid but other hash pinned, 15 days, P-384, expired, not yet valid, Ed25519, harness-CA-signed 10-day P-256 leaf} x runtime flavour; oracle: connect succeeds <=> the policy admits the identity, native roots never admit, and after a refusal the server application never obtains a SessionRequest/session. Non-trivial: exactly one of the four conjuncts false, or all true (verifier); every matrix cell (e2e); distinct = distinct case";
 
 const DAY: i64 = 86_400;
 /// 2050-01-01T00:00:00Z: X.509 validity switches from UTCTime to GeneralizedTime here
@@ -65,7 +65,9 @@ pub struct Case {
     pub set: PinSet,
     /// 0 "localhost" (in SAN), 1 "evil.example" (not in SAN), 2 127.0.0.1, 3 ::1
     pub name: u8,
-    /// intermediates handed to the verifier: 0 none, 1 the leaf again, 2 garbage + another certificate
+    /// intermediates handed to the verifier (mod 5): 0 none, 1 the leaf again, 2 garbage + the leaf
+    /// again, 3 another admissible certificate (P-256, valid at `now`, 1000 s validity) **whose
+    /// SHA-256 is added to the pinned set**, 4 the leaf again + that pinned other certificate
     pub inter: u8,
     /// OCSP response bytes handed to the verifier
     pub ocsp: u8,
@@ -211,14 +213,42 @@ impl Conj {
     }
 }
 
+thread_local! {
+    static LAST_OTHER: RefCell<Option<((i64, u8), Vec<u8>)>> = const { RefCell::new(None) };
+}
+
+/// Another certificate that would itself be admissible at `c.now`: ECDSA P-256 (a different pooled
+/// key), valid from now-100 s for 1000 s. Pinned in addition when it travels as an intermediate.
+fn other_admissible_cert(c: &Case) -> Result<Vec<u8>, String> {
+    let k = (c.now, c.key_ix % POOL as u8);
+    if let Some(hit) = LAST_OTHER.with(|l| l.borrow().as_ref().filter(|(kk, _)| *kk == k).map(|(_, d)| d.clone())) {
+        return Ok(hit);
+    }
+    let nb = (c.now - 100).max(0);
+    let der = make_cert(nb, nb + 1000, key_pair(0, c.key_ix.wrapping_add(1)), 0)?;
+    LAST_OTHER.with(|l| *l.borrow_mut() = Some((k, der.clone())));
+    Ok(der)
+}
+
+fn pins_inter(c: &Case) -> bool {
+    matches!(c.inter % 5, 3 | 4)
+}
+
 fn verify_once(der: &[u8], pins: &[[u8; 32]], c: &Case, now: i64) -> Result<bool, String> {
-    let verifier = ServerHashVerification::new(pins.iter().map(|p| Sha256Digest::new(*p)));
+    let mut pins = pins.to_vec();
     let leaf = CertificateDer::from(der);
     let junk: Vec<u8> = vec![0x30, 0x03, 0x02, 0x01, 0x2a];
-    let inter: Vec<CertificateDer> = match c.inter % 3 {
+    let other = if pins_inter(c) { other_admissible_cert(c)? } else { Vec::new() };
+    if pins_inter(c) {
+        pins.push(sha256(&other));
+    }
+    let verifier = ServerHashVerification::new(pins.iter().map(|p| Sha256Digest::new(*p)));
+    let inter: Vec<CertificateDer> = match c.inter % 5 {
         0 => vec![],
         1 => vec![CertificateDer::from(der)],
-        _ => vec![CertificateDer::from(junk.as_slice()), CertificateDer::from(der)],
+        2 => vec![CertificateDer::from(junk.as_slice()), CertificateDer::from(der)],
+        3 => vec![CertificateDer::from(other.as_slice())],
+        _ => vec![CertificateDer::from(der), CertificateDer::from(other.as_slice())],
     };
     let ocsp: Vec<u8> = (0..c.ocsp).collect();
     let name = server_name(c.name);
@@ -245,7 +275,7 @@ pub fn exec_verifier(c: &Case) -> Outcome {
     };
     let describe = || {
         format!(
-            "certificate nb={}{} na={} (validity {} s = 14 d {:+} s), key {}, now={} (nb{:+}, na{:+}), pinned set {:?} ({} digests, contains SHA-256 of the certificate: {}), server name #{}, {} intermediates, {} OCSP bytes; conjuncts: hash={} time={} period={} key={}",
+            "certificate nb={}{} na={} (validity {} s = 14 d {:+} s), key {}, now={} (nb{:+}, na{:+}), pinned set {:?} ({} digests, contains SHA-256 of the certificate: {}), server name #{}, intermediates shape {} (3/4: another admissible certificate travels as intermediate and is pinned), {} OCSP bytes; conjuncts: hash={} time={} period={} key={}",
             c.nb,
             if c.nb_off_min != 0 { " (encoded as GeneralizedTime although before 2050)" } else { "" },
             na,
@@ -259,7 +289,7 @@ pub fn exec_verifier(c: &Case) -> Outcome {
             pins.len(),
             conj.hash,
             c.name % 4,
-            c.inter % 3,
+            c.inter % 5,
             c.ocsp,
             conj.hash,
             conj.time,
@@ -324,6 +354,9 @@ pub fn exec_verifier(c: &Case) -> Outcome {
     } else if fc == 1 {
         if !conj.hash {
             labels.push("only-false:hash");
+            if pins_inter(c) {
+                labels.push("only-false:hash:pinned-certificate-among-intermediates");
+            }
             if matches!(c.set, PinSet::Flipped { .. } | PinSet::FlippedAmong { .. }) {
                 labels.push("only-false:hash:one-bit-flipped");
             }
@@ -356,7 +389,7 @@ fn key_name(k: u8) -> &'static str {
     }
 }
 
-const VERIFIER_ESSENTIAL: [&str; 16] = [
+const VERIFIER_ESSENTIAL: [&str; 17] = [
     "all-true",
     "only-false:hash",
     "only-false:hash:one-bit-flipped",
@@ -373,6 +406,7 @@ const VERIFIER_ESSENTIAL: [&str; 16] = [
     "boundary:now=nb-1:refused",
     "boundary:now=na+1:refused",
     "all-true:name-not-in-san",
+    "only-false:hash:pinned-certificate-among-intermediates",
 ];
 
 // boundary table -------------------------------------------------------------------------------
@@ -408,7 +442,7 @@ fn table_case(i: u64) -> Case {
         _ => PinSet::Others { n: 20, seed },
     };
     // the inputs that must not matter rotate through the table deterministically
-    Case { nb, d, key, key_ix: ((i / 735) % POOL as u64) as u8, now, set, name: (seed >> 8) as u8 % 4, inter: (seed >> 16) as u8 % 3, ocsp: (seed >> 24) as u8 % 5, nb_off_min: 0 }
+    Case { nb, d, key, key_ix: ((i / 735) % POOL as u64) as u8, now, set, name: (seed >> 8) as u8 % 4, inter: (seed >> 16) as u8 % 5, ocsp: (seed >> 24) as u8 % 5, nb_off_min: 0 }
 }
 
 // degenerate windows: not_after == not_before (a one-second window, RFC 5280 bounds are inclusive)
@@ -490,7 +524,7 @@ pub fn case_strategy() -> impl Strategy<Value = Case> {
         1 => any::<u32>().prop_map(|f| (3u8, 0i64, f)),
         1 => any::<u32>().prop_map(|f| (4u8, 0i64, f)),
     ];
-    (nb_strategy(), d_strategy(), prop_oneof![3 => Just(0u8), 1 => Just(1u8), 1 => Just(2u8)], 0u8..POOL as u8, now_sel, set_strategy(), 0u8..4, 0u8..3, prop_oneof![3 => Just(0u8), 1 => 1u8..200]).prop_map(|(nb, d, key, key_ix, (kind, off, frac), set, name, inter, ocsp)| {
+    (nb_strategy(), d_strategy(), prop_oneof![3 => Just(0u8), 1 => Just(1u8), 1 => Just(2u8)], 0u8..POOL as u8, now_sel, set_strategy(), 0u8..4, 0u8..5, prop_oneof![3 => Just(0u8), 1 => 1u8..200]).prop_map(|(nb, d, key, key_ix, (kind, off, frac), set, name, inter, ocsp)| {
         let na = nb + d;
         let span = d.abs().max(1);
         let now = match kind {
